@@ -71,6 +71,11 @@ class Pair(object):
         self.s = sim.endpoint(names[1], link.ssock, snode)
         self.cset = make_settings(scen.get("cset"))
         self.sset = make_settings(scen.get("sset"))
+        if scen.get("close_socket") is False:
+            # the application keeps ownership of the sockets: close() then
+            # waits for the peer's close_notify
+            self.c.conn.closeSocket = False
+            self.s.conn.closeSocket = False
         if scen.get("alt_skeys"):
             # additional server key pairs (dual-certificate deployment)
             from tlslite.handshakesettings import VirtualHost, Keypair
